@@ -84,7 +84,7 @@ OptR(o, n) == IF o \in Opts THEN -1..(n - 1) ELSE {-1}
 LayoutsN(n) == {L \in [n : {n}, mem : [Names -> {NoMem} \cup [lvl : 0..(n - 1), kind : Kinds]],
                         dict : OptR("dict", n), cinit : OptR("cinit", n),
                         off : IF "off" \in Opts THEN 0..n ELSE {0}, force : OptR("force", n)] : Valid(L)}
-Layouts == UNION {LayoutsN(n) : n \in 1..MaxLvl}
+Layouts == IF Mode = "sim" THEN {} ELSE UNION {LayoutsN(n) : n \in 1..MaxLvl}   \* (TLC evaluates constants eagerly)
 Empty == [n |-> 1, mem |-> [x \in Names |-> NoMem], dict |-> -1, cinit |-> -1, off |-> 0, force |-> -1]
 
 ---------------------------------------------------------------------------
@@ -208,25 +208,30 @@ VARIABLES cur, hist, vals, e, done
 vars == <<cur, hist, vals, e, done>>
 
 Init == /\ cur \in (IF Mode = "sim" THEN {Empty} ELSE IF Mode = "pairs" THEN Layouts
+                    \* hist: full chain, every name but the last one present (room for add / rename), no options yet
                     ELSE {L \in Layouts : L.n = MaxLvl /\ L.dict = -1 /\ L.cinit = -1 /\ L.off = 0 /\ L.force = -1
-                                          /\ \A i \in 1..NNames : L.mem[NameSeq[i]].lvl = (i - 1) % MaxLvl
-                                                                  /\ L.mem[NameSeq[i]].kind \notin {"struct", "ptr"}})
+                                          /\ L.mem[NameSeq[NNames]] = NoMem
+                                          /\ \A i \in 1..(NNames - 1) : L.mem[NameSeq[i]].lvl = (i - 1) % MaxLvl
+                                                                        /\ L.mem[NameSeq[i]].kind \notin {"struct", "ptr"}})
         /\ hist = (IF Mode = "pairs" THEN <<cur>> ELSE <<>>) /\ vals = <<>> /\ e = 0 /\ done = FALSE
 
 CanEdit == /\ Mode # "pairs" /\ Len(hist) < MaxVer
+           /\ Len(hist) = 0 => Mode = "sim"          \* hist: the seed itself is the first version
            /\ e < (IF Len(hist) = 0 THEN FirstEdits + MaxEdits ELSE MaxEdits)
 Edit(L) == /\ CanEdit /\ Valid(L) /\ L # cur
            /\ cur' = L /\ e' = e + 1 /\ UNCHANGED <<hist, vals, done>>
 Stable(k) == k \notin {"cstr", "carr"}      \* these two never take part in a kind change
 
+\* (simulation only: struct / pointer members enter in the leaf class, so that the classes below stay picklable more often)
+Biased(l, k) == Mode = "sim" /\ k \in {"ptr", "struct"} => l = cur.n - 1
 AddMember == \E x \in Names, l \in Lvls, k \in Kinds :
-               /\ cur.mem[x] = NoMem /\ Edit([cur EXCEPT !.mem[x] = [lvl |-> l, kind |-> k]])
+               /\ cur.mem[x] = NoMem /\ Biased(l, k) /\ Edit([cur EXCEPT !.mem[x] = [lvl |-> l, kind |-> k]])
 DelMember == \E x \in Names : cur.mem[x] # NoMem /\ Edit([cur EXCEPT !.mem[x] = NoMem])
 RenameMember == \E x \in Names, y \in Names :
                /\ cur.mem[x] # NoMem /\ cur.mem[y] = NoMem
                /\ Edit([cur EXCEPT !.mem[y] = cur.mem[x], !.mem[x] = NoMem])
 ChangeKind == \E x \in Names, k \in Kinds :
-               /\ cur.mem[x] # NoMem /\ Stable(k) /\ Stable(cur.mem[x].kind)
+               /\ cur.mem[x] # NoMem /\ Stable(k) /\ Stable(cur.mem[x].kind) /\ Biased(cur.mem[x].lvl, k)
                /\ Edit([cur EXCEPT !.mem[x].kind = k])
 MoveMember == \E x \in Names, l \in Lvls : cur.mem[x] # NoMem /\ Edit([cur EXCEPT !.mem[x].lvl = l])
 AddClass == cur.n < MaxLvl /\ Edit([cur EXCEPT !.n = cur.n + 1])
@@ -237,10 +242,10 @@ DropClass == /\ cur.n > 1
                       mem |-> [x \in Names |-> IF cur.mem[x].lvl > t THEN [cur.mem[x] EXCEPT !.lvl = t] ELSE cur.mem[x]],
                       dict |-> Clamp(cur.dict, t), cinit |-> Clamp(cur.cinit, t),
                       off |-> Clamp(cur.off, t + 1), force |-> Clamp(cur.force, t)])
-SetDict == \E l \in -1..(MaxLvl - 1) : Edit([cur EXCEPT !.dict = l])
-SetCinit == \E l \in -1..(MaxLvl - 1) : Edit([cur EXCEPT !.cinit = l])
-SetOff == \E o \in 0..MaxLvl : Edit([cur EXCEPT !.off = o])
-SetForce == \E l \in -1..(MaxLvl - 1) : Edit([cur EXCEPT !.force = l])
+SetDict == \E l \in -1..(MaxLvl - 1) : l # cur.dict /\ Edit([cur EXCEPT !.dict = l])
+SetCinit == \E l \in -1..(MaxLvl - 1) : l # cur.cinit /\ Edit([cur EXCEPT !.cinit = l])
+SetOff == \E o \in 0..MaxLvl : o # cur.off /\ Edit([cur EXCEPT !.off = o])
+SetForce == \E l \in -1..(MaxLvl - 1) : l # cur.force /\ Edit([cur EXCEPT !.force = l])
 Jump == /\ Mode = "pairs" /\ Len(hist) = 1
         /\ \E L \in Layouts : cur' = L /\ hist' = Append(hist, L) /\ UNCHANGED <<e, vals, done>>
 
@@ -252,8 +257,12 @@ Snap == /\ Len(hist) < MaxVer /\ Mode # "pairs"
 StdVal(k) == [lvl |-> (k - 1) % MaxLvl, py |-> ("py" \in Opts /\ k % 2 = 0),
               v |-> [x \in Names |-> (k + (CHOOSE i \in 1..NNames : NameSeq[i] = x)) % NV],
               d |-> IF "dict" \in Opts \/ "py" \in Opts THEN (k - 1) % 3 ELSE 0]
+Idx(x) == CHOOSE i \in 1..NNames : NameSeq[i] = x
+SimVals == {[lvl |-> l, py |-> p, v |-> [x \in Names |-> (salt + Idx(x) * stride) % NV], d |-> d] :
+              l \in Lvls, p \in (IF "py" \in Opts THEN BOOLEAN ELSE {FALSE}), salt \in 0..(NV - 1), stride \in 1..2,
+              d \in (IF "dict" \in Opts \/ "py" \in Opts THEN 0..2 ELSE {0})}
 AddVal == /\ Len(hist) = MaxVer /\ Len(vals) < NVals /\ ~done
-          /\ \E inst \in (IF Mode = "sim" THEN Insts ELSE {StdVal(Len(vals) + 1)}) :
+          /\ \E inst \in (IF Mode = "sim" THEN SimVals ELSE {StdVal(Len(vals) + 1)}) :
                 /\ (Mode = "sim" => \E i \in 1..MaxVer : Applicable(hist[i], inst))
                 /\ vals' = Append(vals, inst)
           /\ UNCHANGED <<cur, hist, e, done>>
@@ -266,8 +275,9 @@ Spec == Init /\ [][Next]_vars
 
 ---------------------------------------------------------------------------
 (* the property on the model: checked when a version has just been added, against every *)
-(* earlier version in both directions; over ALL instances outside simulation            *)
-CheckInsts == IF Mode = "sim" THEN {} ELSE Insts
+(* earlier version in both directions; over ALL instances in pairs mode, over the        *)
+(* published ones in hist mode (and at the end of a simulated history)                   *)
+CheckInsts == IF Mode = "pairs" THEN Insts ELSE IF Mode = "hist" THEN {StdVal(k) : k \in 1..NVals} ELSE {}
 JustSnapped == Len(hist) > 0 /\ e = 0 /\ vals = <<>>
 ImplMeetsDemand ==
   JustSnapped => LET n == Len(hist) Ln == hist[n] IN
@@ -277,6 +287,10 @@ ImplMeetsDemand ==
                                              /\ Mode # "pairs" => PairX(Ln, hist[i], inst)   \* pairs: the reverse is another state
 ImplMeetsDemandVals ==
   done => \A i \in 1..MaxVer, j \in 1..MaxVer, k \in 1..NVals : PairOK(hist[i], hist[j], vals[k])
+Hazards == {"carr", "dangling"}
+PublishedMeet ==     \* (simulation, all kinds: everything published meets the demand unless the model predicts a hazard)
+  done => \A i \in 1..MaxVer, j \in 1..MaxVer, k \in 1..NVals :
+             Impl(hist[i], hist[j], vals[k], "pickle", 1) \in Hazards \/ PairOK(hist[i], hist[j], vals[k])
 
 (* a load that succeeds never gives a field another field's value (weaker: holds for every kind) *)
 Bad == {"misassign", "dictlost", "recursion"}
